@@ -67,8 +67,12 @@ def run_property(pid, tier, seed, only_bounded=None, write=True, quiet=False):
             items, bviol, berr = bounded.run_module(spec['bounded'], pid, tier, seed, budget, only=only_bounded)
             bounded_items = items
             errors += ['bounded ' + e for e in berr]
-            for v in bviol:
-                violations.append(Violation(pid, 'B', v['item'], v['clause'], v['input'], v['detail']))
+            per = {}
+            for v in sorted(bviol, key=lambda v: len(str(v['input']))):         # smallest inputs first, two per clause
+                k = (v['item'], v['clause'])
+                per[k] = per.get(k, 0) + 1
+                if per[k] <= 2:
+                    violations.append(Violation(pid, 'B', v['item'], v['clause'], v['input'], v['detail']))
         except Exception:
             errors.append('bounded: ' + traceback.format_exc())
 
